@@ -15,9 +15,12 @@ def pick_sorted(rng, s):
 # ------------------------------------------------------------------ client application
 
 
-def client_call(g, model, illegal_p=0.0, allow_unbind=0.03):
-    """Choose (method, args, intended) for the client app. intended: 'legal' | 'illegal'."""
+def client_call(g, model, illegal_p=0.0, allow_unbind=0.03, max_out=6):
+    """Choose (method, args, intended) for the client app. intended: 'legal' | 'illegal'.
+    Returns None when the app prefers to wait (pipeline full)."""
     r = g.r
+    if len(model.out) >= max_out and r.random() > illegal_p:
+        return None
     legal = []
     illegal = []
     for m in ("bind", "search_request", "extended_request", "unbind"):
@@ -28,10 +31,12 @@ def client_call(g, model, illegal_p=0.0, allow_unbind=0.03):
         m = r.choice(illegal)
     else:
         pool = [x for x in legal if x != "unbind"]
-        if "unbind" in legal and (not pool or r.random() < allow_unbind):
+        if "unbind" in legal and r.random() < allow_unbind:
             m = "unbind"
+        elif not pool and legal:
+            return None  # e.g. BINDING with the bind outstanding: wait for the response
         elif pool:
-            weights = {"bind": 2, "search_request": 4, "extended_request": 3}
+            weights = {"bind": 8, "search_request": 4, "extended_request": 3}
             m = r.choices(pool, [weights[x] for x in pool])[0]
         elif illegal:
             m = r.choice(illegal)
@@ -117,11 +122,11 @@ def server_legal_call(g, model, p_sasl=0.25, p_term=0.0):
     return m, a
 
 
-def server_any_call(g, model, focus=None):
+def server_any_call(g, model, focus=None, p_unbind=0.04):
     """Adversarial server app: any method x any id class (focus = (method, idclass) or None)."""
     r = g.r
     if focus is None:
-        if r.random() < 0.04:
+        if r.random() < p_unbind:
             return "unbind", {}, "n/a"
         m = r.choice(SERVER_METHODS)
         cls = r.choice(["outstanding", "outstanding", "retired", "never", "zero"])
